@@ -54,7 +54,7 @@ def kindOf (k : String) : Option TokKind :=
   | _ => none
 
 /-- sheet level (structure): `canon SX` -> the tokens of `serialise s`; `reparse SX` -> `eq` when the model's parse of
-those tokens projects to `erase s` (the theorem `parse_serialise`, evaluated), `fix SX` -> `eq` when
+those tokens projects to `erase (prune s)` (the theorem `parse_serialise`, evaluated), `fix SX` -> `eq` when
 `canon (canon s)` renders the same tokens (the theorem `serialise_fixpoint`, evaluated) -/
 def handleSheet (op : String) (ws : List String) : String :=
   open CssVerif.SheetCanonWire CssVerif.SheetCanon CssVerif.SheetSpec CssVerif.Struct in
@@ -65,7 +65,7 @@ def handleSheet (op : String) (ws : List String) : String :=
     | "canon" => encToks (serialise s)
     | "reparse" =>
       let got := jASheet false (projSheet orc CssVerif.Gen.C02.margins (parseSheet orc CssVerif.Gen.C02.margins (serialise s)))
-      let want := jASheet false s.erase
+      let want := jASheet false (prune s).erase
       if got == want then "eq" else "ne " ++ got ++ " " ++ want
     | "fix" => if encToks (serialise (canon s)) == encToks (serialise s) then "eq" else "ne " ++ encToks (serialise (canon s))
     | _ => "bad-op"
